@@ -19,10 +19,25 @@ struct RoleDef {
     name: String,
     perms: BTreeSet<&'static str>,
     cas: Option<Vec<&'static str>>,
+    /// a role with a blanket grant AND differing per-CA grants (built with
+    /// `Role::complex`; the configuration file cannot express it, the role
+    /// type can): `perms` is then the grant for non-CA requests, this the
+    /// blanket grant and the per-CA grants
+    complex: Option<(BTreeSet<&'static str>, BTreeMap<&'static str, BTreeSet<&'static str>>)>,
 }
 
 impl RoleDef {
     fn is_allowed(&self, perm: &str, resource: Option<&str>) -> bool {
+        if let Some((any, per_ca)) = &self.complex {
+            return match resource {
+                // a per-CA grant takes precedence over the blanket grant
+                Some(ca) => match per_ca.get(ca) {
+                    Some(set) => set.contains(perm),
+                    None => any.contains(perm),
+                },
+                None => self.perms.contains(perm),
+            };
+        }
         match (resource, &self.cas) {
             (Some(ca), Some(list)) => list.contains(&ca) && self.perms.contains(perm),
             _ => self.perms.contains(perm),
@@ -30,30 +45,47 @@ impl RoleDef {
     }
 }
 
+fn permission_set(names: &BTreeSet<&'static str>) -> krill::daemon::http::auth::PermissionSet {
+    use std::str::FromStr;
+    let mut set = krill::daemon::http::auth::PermissionSet::NONE;
+    for n in names {
+        set = set.add(krill::daemon::http::auth::Permission::from_str(n).expect("permission name"));
+    }
+    set
+}
+
 fn roles(thorough: bool) -> Vec<RoleDef> {
     let all: BTreeSet<&'static str> = ALL_PERMISSIONS.iter().copied().collect();
     let mut v = vec![
-        RoleDef { name: "full".into(), perms: all.clone(), cas: None },
-        RoleDef { name: "none".into(), perms: BTreeSet::new(), cas: None },
-        RoleDef { name: "login".into(), perms: ["login"].into_iter().collect(), cas: None },
-        RoleDef { name: "full-at-ca".into(), perms: all.clone(), cas: Some(vec!["ca"]) },
-        RoleDef { name: "full-at-other".into(), perms: all.clone(), cas: Some(vec!["other"]) },
-        RoleDef { name: "full-at-nothing".into(), perms: all.clone(), cas: Some(vec![]) },
+        RoleDef { name: "full".into(), perms: all.clone(), cas: None, complex: None },
+        RoleDef { name: "none".into(), perms: BTreeSet::new(), cas: None, complex: None },
+        RoleDef { name: "login".into(), perms: ["login"].into_iter().collect(), cas: None, complex: None },
+        RoleDef { name: "full-at-ca".into(), perms: all.clone(), cas: Some(vec!["ca"]), complex: None },
+        RoleDef { name: "full-at-other".into(), perms: all.clone(), cas: Some(vec!["other"]), complex: None },
+        RoleDef { name: "full-at-nothing".into(), perms: all.clone(), cas: Some(vec![]), complex: None },
     ];
     for p in ALL_PERMISSIONS {
         let mut but = all.clone();
         but.remove(p);
-        v.push(RoleDef { name: format!("all-but-{p}"), perms: but.clone(), cas: None });
-        v.push(RoleDef { name: format!("only-{p}"), perms: [*p].into_iter().collect(), cas: None });
-        v.push(RoleDef { name: format!("login-{p}"), perms: ["login", *p].into_iter().collect(), cas: None });
-        v.push(RoleDef { name: format!("login-caread-{p}"), perms: ["login", "ca-read", *p].into_iter().collect(), cas: None });
-        v.push(RoleDef { name: format!("login-pubadmin-{p}"), perms: ["login", "pub-admin", *p].into_iter().collect(), cas: None });
-        v.push(RoleDef { name: format!("login-caread-{p}-at-ca"), perms: ["login", "ca-read", *p].into_iter().collect(), cas: Some(vec!["ca"]) });
+        v.push(RoleDef { name: format!("all-but-{p}"), perms: but.clone(), cas: None, complex: None });
+        v.push(RoleDef { name: format!("only-{p}"), perms: [*p].into_iter().collect(), cas: None, complex: None });
+        v.push(RoleDef { name: format!("login-{p}"), perms: ["login", *p].into_iter().collect(), cas: None, complex: None });
+        v.push(RoleDef { name: format!("login-caread-{p}"), perms: ["login", "ca-read", *p].into_iter().collect(), cas: None, complex: None });
+        v.push(RoleDef { name: format!("login-pubadmin-{p}"), perms: ["login", "pub-admin", *p].into_iter().collect(), cas: None, complex: None });
+        v.push(RoleDef { name: format!("login-caread-{p}-at-ca"), perms: ["login", "ca-read", *p].into_iter().collect(), cas: Some(vec!["ca"]), complex: None });
+        // blanket grant with a differing per-CA grant (narrower, wider, empty)
+        let base: BTreeSet<&'static str> = ["login", "ca-read"].into_iter().collect();
+        let mut base_p = base.clone();
+        base_p.insert(*p);
+        v.push(RoleDef { name: format!("complex-all-but-{p}-at-ca"), perms: all.clone(), cas: None, complex: Some((all.clone(), [("ca", but.clone())].into_iter().collect())) });
+        v.push(RoleDef { name: format!("complex-{p}-only-at-ca"), perms: base.clone(), cas: None, complex: Some((base.clone(), [("ca", base_p.clone())].into_iter().collect())) });
+        v.push(RoleDef { name: format!("complex-{p}-except-at-other"), perms: base_p.clone(), cas: None, complex: Some((base_p.clone(), [("other", base.clone())].into_iter().collect())) });
         if thorough {
-            v.push(RoleDef { name: format!("login-caread-{p}-at-other"), perms: ["login", "ca-read", *p].into_iter().collect(), cas: Some(vec!["other"]) });
-            v.push(RoleDef { name: format!("all-but-{p}-at-ca"), perms: but, cas: Some(vec!["ca"]) });
-            v.push(RoleDef { name: format!("login-{p}-at-both"), perms: ["login", *p].into_iter().collect(), cas: Some(vec!["ca", "other"]) });
-            v.push(RoleDef { name: format!("login-{p}-at-ca-and-unknown"), perms: ["login", *p].into_iter().collect(), cas: Some(vec!["nobody", "ca"]) });
+            v.push(RoleDef { name: format!("complex-{p}-nothing-at-ca"), perms: base_p.clone(), cas: None, complex: Some((base_p.clone(), [("ca", BTreeSet::new())].into_iter().collect())) });
+            v.push(RoleDef { name: format!("login-caread-{p}-at-other"), perms: ["login", "ca-read", *p].into_iter().collect(), cas: Some(vec!["other"]), complex: None });
+            v.push(RoleDef { name: format!("all-but-{p}-at-ca"), perms: but, cas: Some(vec!["ca"]), complex: None });
+            v.push(RoleDef { name: format!("login-{p}-at-both"), perms: ["login", *p].into_iter().collect(), cas: Some(vec!["ca", "other"]), complex: None });
+            v.push(RoleDef { name: format!("login-{p}-at-ca-and-unknown"), perms: ["login", *p].into_iter().collect(), cas: Some(vec!["nobody", "ca"]), complex: None });
         }
     }
     if thorough {
@@ -64,8 +96,8 @@ fn roles(thorough: bool) -> Vec<RoleDef> {
                     continue;
                 }
                 let perms: BTreeSet<&'static str> = ["login", *p, *q].into_iter().collect();
-                v.push(RoleDef { name: format!("login-{p}-{q}"), perms: perms.clone(), cas: None });
-                v.push(RoleDef { name: format!("login-{p}-{q}-at-other"), perms, cas: Some(vec!["other"]) });
+                v.push(RoleDef { name: format!("login-{p}-{q}"), perms: perms.clone(), cas: None, complex: None });
+                v.push(RoleDef { name: format!("login-{p}-{q}-at-other"), perms, cas: Some(vec!["other"]), complex: None });
             }
         }
     }
@@ -75,13 +107,26 @@ fn roles(thorough: bool) -> Vec<RoleDef> {
 fn role_map(defs: &[RoleDef]) -> Arc<RoleMap> {
     let mut m = serde_json::Map::new();
     for d in defs {
+        if d.complex.is_some() {
+            continue;
+        }
         let mut o = json!({"permissions": d.perms.iter().collect::<Vec<_>>()});
         if let Some(c) = &d.cas {
             o["cas"] = json!(c);
         }
         m.insert(d.name.clone(), o);
     }
-    Arc::new(serde_json::from_value::<RoleMap>(Value::Object(m)).expect("role map"))
+    let mut map = serde_json::from_value::<RoleMap>(Value::Object(m)).expect("role map");
+    for d in defs {
+        if let Some((any, per_ca)) = &d.complex {
+            let resources = per_ca
+                .iter()
+                .map(|(ca, set)| (crate::world::ca(ca).convert(), permission_set(set)))
+                .collect();
+            map.add(d.name.clone(), krill::daemon::http::auth::Role::complex(permission_set(&d.perms), permission_set(any), resources));
+        }
+    }
+    Arc::new(map)
 }
 
 fn config(defs: &[RoleDef], testbed: bool) -> krill::config::Config {
@@ -189,7 +234,7 @@ fn expected(route: &Route, role: Option<&RoleDef>, target: &str, admin: bool) ->
 pub fn run(tier: &Tier, _args: &[String]) -> i32 {
     let mut out = Outcome::new("C13", tier, "model_checking");
     out.assumptions = vec![
-        "roles are the forms the configuration can express: a permission set, optionally restricted to a list of CAs (then the grant holds for the listed CAs only and for non-CA requests); enumerated: full, none, login, for every permission P: all-but-P, only-P, login+P, login+ca-read+P, login+pub-admin+P, each also scoped to a CA; thorough adds scoping to the other CA, to both CAs and to a list with an unknown CA, and every pair of permissions on top of login (blanket and scoped to the other CA)".into(),
+        "roles are the forms the configuration can express - a permission set, optionally restricted to a list of CAs (then the grant holds for the listed CAs only and for non-CA requests) - and roles with a blanket grant plus a differing per-CA grant (narrower, wider, empty), which only the role type can express (Role::complex, put into the role map directly); enumerated: full, none, login, for every permission P: all-but-P, only-P, login+P, login+ca-read+P, login+pub-admin+P, each also scoped to a CA; thorough adds scoping to the other CA, to both CAs and to a list with an unknown CA, and every pair of permissions on top of login (blanket and scoped to the other CA)".into(),
         "callers: no credentials, wrong bearer token, the admin token, an unmapped system user, and a system user mapped to each role (the Unix-socket path: the daemon's own provider chain reads the peer user from the request extensions, as the socket listener sets it)".into(),
         "served = any status other than 401/403; the reference for the required permissions is the route table in harness/src/routes.rs, transcribed from src/daemon/http/dispatch".into(),
     ];
